@@ -1,24 +1,729 @@
-//! C12 — not implemented yet (stub so that the registry compiles).
+//! C12 — sequences: accepted defseq tables are unambiguous; a typed sequence fires its virtual key
+//! exactly once and leaves sequence mode; failing continuations / timeouts fire nothing; hidden
+//! modes press none of the typed keys; visible-backspaced sends one backspace per character.
+//!
+//! Oracle (a), parser half: an independent expansion of every table into what the user types
+//! (press tokens = key + modifiers held; `O-(..)` groups as sets that must overlap) and a pairwise
+//! prefix check under the documented matching rules; only "accepted => prefix-free" is judged.
+//! Oracle (b), runtime half: every virtual key is a macro typing a unique witness key; counts, mode
+//! exit, suppression and backspace arithmetic are read from the OS stream (plus the public
+//! `sequence_state.is_active()` at quiescent points for the modes where the stream cannot tell).
 
+#[path = "c12_model.rs"]
+mod model;
+
+use crate::core::rng::Rng;
+use crate::core::sim::{code_name, osc, render_hist, Ev, Out, OutKind, Sim};
 use crate::core::{CaseOut, Check, Ctx};
+use model::*;
+use serde_json::{json, Value};
 
 pub struct C12Check;
 pub static C12: C12Check = C12Check;
+
+const FOREIGN: &str = "z";
+const PROBE: &str = "y";
+const LEADER_KEY: &str = "0";
+
+#[derive(Clone, Copy, Debug, PartialEq, Eq)]
+enum Mode {
+    HiddenSuppressed,
+    HiddenDelayType,
+    VisibleBackspaced,
+}
+impl Mode {
+    fn name(self) -> &'static str {
+        match self {
+            Mode::HiddenSuppressed => "hidden-suppressed",
+            Mode::HiddenDelayType => "hidden-delay-type",
+            Mode::VisibleBackspaced => "visible-backspaced",
+        }
+    }
+    fn hidden(self) -> bool {
+        self != Mode::VisibleBackspaced
+    }
+}
+#[derive(Clone, Copy, Debug, PartialEq, Eq)]
+enum Leader {
+    Sldr,
+    SeqAction,
+    AlwaysOn,
+}
+impl Leader {
+    fn name(self) -> &'static str {
+        match self {
+            Leader::Sldr => "sldr",
+            Leader::SeqAction => "sequence-action",
+            Leader::AlwaysOn => "always-on",
+        }
+    }
+}
+
+const COMBOS: [(Mode, Leader); 8] = [
+    (Mode::HiddenSuppressed, Leader::Sldr),
+    (Mode::HiddenDelayType, Leader::Sldr),
+    (Mode::VisibleBackspaced, Leader::Sldr),
+    (Mode::HiddenSuppressed, Leader::SeqAction),
+    (Mode::HiddenDelayType, Leader::SeqAction),
+    (Mode::VisibleBackspaced, Leader::SeqAction),
+    (Mode::HiddenDelayType, Leader::AlwaysOn),
+    (Mode::VisibleBackspaced, Leader::AlwaysOn),
+];
+
+fn config_text(table: &Table, mode: Mode, leader: Leader, t: u64) -> String {
+    let mut s = config_head(table, mode, leader, t);
+    // with the default sequence-backtrack-modcancel a key typed while a modifier is held may also
+    // match a sequence that lists it without the modifier; the guide does not specify that matching
+    // precisely enough to model, so tables with chorded members are run with it switched off
+    if table.has_chorded_members() {
+        s = s.replacen("(defcfg ", "(defcfg sequence-backtrack-modcancel no ", 1);
+    }
+    s
+}
+
+fn config_head(table: &Table, mode: Mode, leader: Leader, t: u64) -> String {
+    let mut s = String::new();
+    let other_mode = match mode {
+        Mode::HiddenSuppressed => Mode::VisibleBackspaced,
+        Mode::HiddenDelayType => Mode::HiddenSuppressed,
+        Mode::VisibleBackspaced => Mode::HiddenDelayType,
+    };
+    match leader {
+        Leader::Sldr => s.push_str(&format!("(defcfg process-unmapped-keys yes sequence-timeout {t} sequence-input-mode {})\n(defsrc {LEADER_KEY})\n(deflayer base sldr)\n", mode.name())),
+        // the action's own timeout and mode must override the global ones
+        Leader::SeqAction => s.push_str(&format!("(defcfg process-unmapped-keys yes sequence-timeout {} sequence-input-mode {})\n(defsrc {LEADER_KEY})\n(deflayer base (sequence {t} {}))\n", t * 3 + 7, other_mode.name(), mode.name())),
+        Leader::AlwaysOn => s.push_str(&format!("(defcfg process-unmapped-keys yes sequence-timeout {t} sequence-input-mode {} sequence-always-on yes)\n(defsrc {LEADER_KEY})\n(deflayer base {LEADER_KEY})\n", mode.name())),
+    }
+    s.push_str(&table.text());
+    s
+}
+
+fn tn(k: &str) -> String {
+    code_name(osc(k))
+}
+
+// ---------------------------------------------------------------- scenarios
+
+#[derive(Clone, Debug)]
+enum Kind {
+    /// whole ordering typed; `slow_at` = Some((press index, gap)) stretches one inter-press gap
+    Complete,
+    /// `cut` presses typed, everything released, then the foreign key
+    PrefixForeign { cut: usize },
+    /// `cut` presses typed (0 = only the leader), then silence of `gap` ticks measured from the arrival of
+    /// the last press (or of the leader press)
+    Timeout { cut: usize, gap: u64 },
+}
+
+struct Scenario {
+    kind: Kind,
+    hist: Vec<Ev>,
+    /// (arrival tick, key name as printed in the trace) of every typed press, in order
+    presses: Vec<(u64, String)>,
+    /// tick in which each typed press is consumed
+    press_proc: Vec<u64>,
+    /// tick at which `is_active` is sampled (just before the probe key)
+    sample_at: u64,
+    /// arrival of the event that makes the sequence fail (foreign key) if any; `is_active` is also
+    /// sampled just before it
+    fail_at: Option<u64>,
+    /// tick at which the sequence must still be in progress (failing scenarios): after the last typed
+    /// press was processed, before the foreign key / long before the timeout
+    mid_sample_at: Option<u64>,
+    hold_through: bool,
+}
+
+struct Obs {
+    trace: Vec<Out>,
+    active_at_sample: bool,
+    active_before_fail: bool,
+    active_at_end: bool,
+}
+
+fn run(cfg: &str, sc: &Scenario) -> Result<Obs, String> {
+    let mut sim = Sim::new(cfg)?;
+    let mut active_at_sample = false;
+    let mut active_before_fail = false;
+    let mut sampled = false;
+    let mut sampled2 = false;
+    for e in &sc.hist {
+        match e {
+            Ev::T(n) => {
+                for _ in 0..*n {
+                    if !sampled && sim.now == sc.sample_at {
+                        active_at_sample = sim.k.sequence_state.is_active();
+                        sampled = true;
+                    }
+                    if !sampled2 && Some(sim.now) == sc.mid_sample_at {
+                        active_before_fail = sim.k.sequence_state.is_active();
+                        sampled2 = true;
+                    }
+                    sim.tick();
+                }
+            }
+            other => {
+                if !sampled && sim.now == sc.sample_at {
+                    active_at_sample = sim.k.sequence_state.is_active();
+                    sampled = true;
+                }
+                if !sampled2 && Some(sim.now) == sc.mid_sample_at {
+                    active_before_fail = sim.k.sequence_state.is_active();
+                    sampled2 = true;
+                }
+                sim.apply(other)
+            }
+        }
+    }
+    let active_at_end = sim.k.sequence_state.is_active();
+    Ok(Obs { trace: sim.normalized(), active_at_sample, active_before_fail, active_at_end })
+}
+
+struct Sched {
+    t: u64,
+    /// tick in which the most recent event is consumed (kanata takes one queued event per tick)
+    proc: u64,
+    evs: Vec<(u64, Ev)>,
+}
+impl Sched {
+    fn at(&mut self, t: u64, e: Ev) {
+        self.evs.push((t, e));
+        self.t = t;
+        self.proc = t.max(self.proc) + 1;
+    }
+    fn after(&mut self, gap: u64, e: Ev) {
+        let t = self.t + gap;
+        self.at(t, e);
+    }
+    fn hist(&self, end: u64) -> Vec<Ev> {
+        let mut h = vec![];
+        let mut now = 0u64;
+        for (t, e) in &self.evs {
+            if *t > now {
+                h.push(Ev::T((*t - now) as u32));
+                now = *t;
+            }
+            h.push(e.clone());
+        }
+        if end > now {
+            h.push(Ev::T((end - now) as u32));
+        }
+        h
+    }
+}
+
+/// Build the event history for typing `ord` (one ordering of one sequence).
+fn build(ord: &[El], kind: Kind, leader: Leader, timeout: u64, hold_through: bool, rng: &mut Rng) -> Scenario {
+    let sc = build_inner(ord, kind.clone(), leader, timeout, hold_through, rng, false);
+    // "within the timeout": every press must be consumed < T after the previous one (or the leader);
+    // events injected with zero gap are consumed one per tick, so consumption times are used, with
+    // one tick of slack
+    let ok = match kind {
+        Kind::Complete => max_press_gap(&sc, leader) + 1 < timeout,
+        _ => true,
+    };
+    if ok {
+        sc
+    } else {
+        build_inner(ord, kind, leader, timeout, hold_through, rng, true)
+    }
+}
+
+fn max_press_gap(sc: &Scenario, leader: Leader) -> u64 {
+    let mut last = if leader == Leader::AlwaysOn { None } else { Some(4u64) };
+    let mut m = 0;
+    for t in &sc.press_proc {
+        if let Some(l) = last {
+            m = m.max(*t - l);
+        }
+        last = Some(*t);
+    }
+    m
+}
+
+fn build_inner(ord: &[El], kind: Kind, leader: Leader, timeout: u64, hold_through: bool, rng: &mut Rng, tight: bool) -> Scenario {
+    let steps = user_steps(ord, hold_through);
+    let n_presses = steps.iter().filter(|s| s.0).count();
+    let mut sc = Sched { t: 0, proc: 0, evs: vec![] };
+    let lk = osc(LEADER_KEY);
+    let mut leader_arrival = 3u64;
+    if leader != Leader::AlwaysOn {
+        sc.at(3, Ev::P(lk));
+        sc.after(1, Ev::R(lk));
+    } else {
+        leader_arrival = 0;
+        sc.t = 4;
+    }
+    let (cut, slow): (usize, Option<(usize, u64)>) = match &kind {
+        Kind::Complete => (n_presses, None),
+        Kind::PrefixForeign { cut } => (*cut, None),
+        Kind::Timeout { cut, gap } => {
+            if *gap < timeout {
+                (n_presses, Some((*cut, *gap)))
+            } else {
+                (*cut, None)
+            }
+        }
+    };
+    let mut presses: Vec<(u64, String)> = vec![];
+    let mut press_proc: Vec<u64> = vec![];
+    let mut held: Vec<String> = vec![];
+    let mut last_press_arrival = leader_arrival;
+    let exact = tight || !matches!(kind, Kind::Complete);
+    let mut np = 0usize;
+    for (is_press, key) in steps.iter() {
+        if *is_press {
+            if np == cut {
+                break;
+            }
+            let t = match slow {
+                Some((i, g)) if i == np => last_press_arrival + g,
+                _ => sc.t + if tight { 1 } else if exact { 1 + rng.below(2) } else { *rng.pick(&[0u64, 1, 1, 2, 3]) },
+            };
+            let t = t.max(sc.t);
+            sc.at(t, Ev::P(osc(key)));
+            presses.push((t, tn(key)));
+            press_proc.push(sc.proc);
+            held.push(key.clone());
+            last_press_arrival = t;
+            np += 1;
+        } else {
+            sc.after(if exact { 1 } else { *rng.pick(&[0u64, 1, 1, 2]) }, Ev::R(osc(key)));
+            held.retain(|k| k != key);
+        }
+    }
+    // release whatever is still held (cut scenarios)
+    for k in held.iter().rev() {
+        sc.after(1, Ev::R(osc(k)));
+    }
+    let mut fail_at = None;
+    let mut mid_sample_at = None;
+    match &kind {
+        Kind::Complete => {}
+        Kind::PrefixForeign { .. } => {
+            sc.after(2, Ev::P(osc(FOREIGN)));
+            fail_at = Some(sc.t);
+            mid_sample_at = Some(sc.t);
+            sc.after(2, Ev::R(osc(FOREIGN)));
+        }
+        Kind::Timeout { gap, .. } => {
+            if *gap >= timeout {
+                // nothing until exactly `gap` ticks after the arrival of the last press
+                mid_sample_at = Some(sc.t.max(last_press_arrival + 2));
+                let t = last_press_arrival + gap;
+                sc.t = sc.t.max(t);
+                if sc.t != t {
+                    // cannot happen with the timeouts used (>= 10) but never judge a wrong schedule
+                    sc.t = t.max(sc.t);
+                }
+            }
+        }
+    }
+    // let the virtual key's macro finish, then probe
+    let settle = if matches!(kind, Kind::Timeout { gap, .. } if gap >= timeout) { 0 } else { 12 };
+    let sample_at = sc.t.max(sc.proc) + settle;
+    sc.at(sample_at, Ev::P(osc(PROBE)));
+    sc.after(2, Ev::R(osc(PROBE)));
+    let end = sc.t + 15;
+    Scenario { kind, hist: sc.hist(end), presses, press_proc, sample_at, fail_at, mid_sample_at, hold_through }
+}
+
+fn downs(trace: &[Out], name: &str) -> Vec<u64> {
+    trace.iter().filter(|o| o.kind == OutKind::Down && o.name == name).map(|o| o.at).collect()
+}
+
+struct Judge<'a> {
+    out: &'a mut CaseOut,
+    table: &'a Table,
+    cfg: &'a str,
+    mode: Mode,
+    leader: Leader,
+    timeout: u64,
+}
+
+impl<'a> Judge<'a> {
+    fn witness(&self, si: usize, ord: &[El], sc: &Scenario, obs: &Obs, extra: Value) -> Value {
+        json!({
+            "config": self.cfg,
+            "sequence": self.table.seqs[si].text(),
+            "typed_ordering": seq_text(ord),
+            "scenario": format!("{:?}", sc.kind),
+            "overlap_keys_held_through_next_key": sc.hold_through,
+            "history": render_hist(&sc.hist),
+            "observed": obs.trace.iter().map(|o| o.short()).collect::<Vec<_>>(),
+            "sequence_active_before_probe": obs.active_at_sample,
+            "expected": extra,
+        })
+    }
+
+    /// `si`: index of the typed sequence, `ord`: the ordering typed, `shadow`: sequences that put the
+    /// table into the structural class of known finding #21 with respect to this ordering
+    fn judge(&mut self, si: usize, ord: &[El], sc: &Scenario, obs: &Obs, shadow: &[usize]) {
+        const SHADOW: &str = "C12:overlap-group-shadowed-by-differently-structured-seq";
+        let mode = self.mode;
+        let wit_counts: Vec<usize> = (0..self.table.seqs.len()).map(|i| downs(&obs.trace, &tn(WIT[i])).len()).collect();
+        let total_fired: usize = wit_counts.iter().sum();
+        let typed_names: Vec<String> = sc.presses.iter().map(|p| p.1.clone()).collect();
+        let probe_downs = downs(&obs.trace, &tn(PROBE));
+        let bsp = downs(&obs.trace, "BSpace").len();
+        let completes = match &sc.kind {
+            Kind::Complete => true,
+            Kind::PrefixForeign { .. } => false,
+            Kind::Timeout { gap, .. } => *gap < self.timeout,
+        };
+        let ctx = format!("{}/{}", mode.name(), self.leader.name());
+        let mut v: Vec<(String, String, Value)> = vec![];
+        // when the primary expectation fails, the remaining observations are consequences of it
+        let mut primary_ok = true;
+        if completes {
+            self.out.inc("typings_complete");
+            if let Kind::Timeout { .. } = sc.kind {
+                self.out.inc("boundary_T_minus_1");
+            }
+            let mine = wit_counts[si];
+            let others = total_fired - mine;
+            if mine == 1 && others == 0 {
+                self.out.inc("completions_exactly_once");
+            } else if total_fired == 0 {
+                primary_ok = false;
+                let sig = if shadow.is_empty() { "C12:typed-seq-fires-nothing".to_string() } else { format!("{SHADOW}:typed-seq-fires-nothing") };
+                v.push((sig, format!("typing a defined sequence within the timeout fired no virtual key ({ctx})"), json!({"witness_presses": {"expected": 1, "observed": 0}})));
+            } else if others > 0 {
+                primary_ok = false;
+                // with the match lost to the shadowing sequence, the rest of the keys is matched afresh
+                // (documented back-tracking) and can complete the shadowing or yet another sequence
+                let sig = if !shadow.is_empty() && mine == 0 { format!("{SHADOW}:typed-seq-fires-another-seq") } else { "C12:typed-seq-fires-other-vkey".to_string() };
+                v.push((sig, format!("typing a defined sequence fired another sequence's virtual key ({ctx})"), json!({"witness_presses_per_sequence": wit_counts, "typed_index": si})));
+            } else {
+                primary_ok = false;
+                v.push(("C12:typed-seq-fires-more-than-once".into(), format!("virtual key tapped {mine} times ({ctx})"), json!({"witness_presses": {"expected": 1, "observed": mine}})));
+            }
+            if primary_ok {
+                if obs.active_at_sample && self.leader != Leader::AlwaysOn {
+                    v.push(("C12:mode-not-left-after-completion".into(), format!("sequence mode still active after the sequence completed ({ctx})"), json!({"sequence_active": false})));
+                }
+                if mode.hidden() {
+                    let leaked: Vec<&String> = typed_names.iter().filter(|n| !downs(&obs.trace, n).is_empty()).collect();
+                    if !leaked.is_empty() {
+                        v.push(("C12:hidden-mode-pressed-typed-key".into(), format!("{} pressed typed key(s) {:?} at the OS although the sequence completed", mode.name(), leaked), json!({"presses_of_typed_keys": 0})));
+                    } else {
+                        self.out.inc("hidden_completions_without_press");
+                    }
+                } else {
+                    let chars = typed_names.iter().filter(|n| !is_mod_name(n)).count();
+                    if bsp != chars {
+                        v.push(("C12:backspace-count".into(), format!("visible-backspaced sent {bsp} backspaces for {chars} characters typed"), json!({"backspaces": chars})));
+                    } else {
+                        self.out.inc("visible_completions_backspaced");
+                        self.out.count("backspaces_counted", bsp as u64);
+                    }
+                    let seen: Vec<String> = obs.trace.iter().filter(|o| o.kind == OutKind::Down && typed_names.contains(&o.name)).map(|o| o.name.clone()).collect();
+                    if seen != typed_names {
+                        v.push(("C12:visible-mode-keys-not-typed".into(), "visible-backspaced did not type the sequence keys as they were input".to_string(), json!({"presses_of_typed_keys": typed_names})));
+                    }
+                }
+            }
+        } else {
+            self.out.inc("typings_failing");
+            match &sc.kind {
+                Kind::PrefixForeign { .. } => self.out.inc("fail_by_foreign_key"),
+                Kind::Timeout { gap, .. } => {
+                    self.out.inc("fail_by_timeout");
+                    self.out.inc(if *gap == self.timeout { "boundary_T" } else { "boundary_T_plus_1" });
+                }
+                _ => {}
+            }
+            // a proper prefix typed within the timeout: the sequence must still be in progress
+            let cut = match sc.kind {
+                Kind::PrefixForeign { cut } | Kind::Timeout { cut, .. } => cut,
+                _ => 0,
+            };
+            if sc.mid_sample_at.is_some() {
+                if !obs.active_before_fail && (cut > 0 || self.leader != Leader::AlwaysOn) {
+                    primary_ok = false;
+                    let sig = if shadow.is_empty() { "C12:mode-left-on-valid-prefix".to_string() } else { format!("{SHADOW}:mode-left-on-valid-prefix") };
+                    v.push((sig, format!("sequence mode ended although the keys typed so far are a proper prefix of a defined sequence and no timeout elapsed ({ctx})"), json!({"sequence_active_before_foreign_key": true})));
+                } else {
+                    self.out.inc("prefixes_still_in_progress");
+                }
+            }
+            if primary_ok {
+                if total_fired > 0 {
+                    primary_ok = false;
+                    // always-on: after the early exit the remaining keys start a new sequence of their own
+                    let sig = if !shadow.is_empty() && self.leader == Leader::AlwaysOn { format!("{SHADOW}:mode-left-on-valid-prefix") } else { "C12:failing-continuation-fired-vkey".to_string() };
+                    v.push((sig, format!("a virtual key was activated although the typed keys match no sequence / the timeout elapsed ({ctx})"), json!({"witness_presses_per_sequence": vec![0; wit_counts.len()], "observed": wit_counts})));
+                } else {
+                    self.out.inc("failures_fired_nothing");
+                }
+            }
+            if primary_ok && obs.active_at_sample {
+                primary_ok = false;
+                let sig = if matches!(sc.kind, Kind::Timeout { .. }) { "C12:mode-not-left-at-timeout" } else { "C12:mode-not-left-after-failing-key" };
+                v.push((sig.into(), format!("sequence mode still active after the sequence failed ({ctx})"), json!({"sequence_active": false})));
+            }
+            let fail_tick = sc.fail_at;
+            // a typed key reaching the OS before the failure is how an early exit from sequence mode shows
+            // when the mode is re-entered at once (always-on); under the shadow structure it is that finding
+            let early_sig = if shadow.is_empty() { "C12:hidden-mode-pressed-typed-key".to_string() } else { format!("{SHADOW}:mode-left-on-valid-prefix") };
+            if primary_ok {
+                match mode {
+                    Mode::HiddenSuppressed => {
+                        let leaked: Vec<&String> = typed_names.iter().filter(|n| !downs(&obs.trace, n).is_empty()).collect();
+                        if !leaked.is_empty() {
+                            v.push((early_sig.clone(), format!("hidden-suppressed pressed typed key(s) {leaked:?} at the OS"), json!({"presses_of_typed_keys": 0})));
+                        } else {
+                            self.out.inc("hidden_suppressed_failures_silent");
+                        }
+                    }
+                    Mode::HiddenDelayType => {
+                        // the typed keys (and the failing key) appear as taps, in order, only once the sequence failed
+                        let mut expect = typed_names.clone();
+                        if fail_tick.is_some() {
+                            expect.push(tn(FOREIGN));
+                        }
+                        let stream: Vec<&Out> = obs.trace.iter().filter(|o| matches!(o.kind, OutKind::Down | OutKind::Up) && expect.contains(&o.name)).collect();
+                        let mut ok = stream.len() == 2 * expect.len();
+                        if ok {
+                            for (i, n) in expect.iter().enumerate() {
+                                let (d, u) = (stream[2 * i], stream[2 * i + 1]);
+                                if d.kind != OutKind::Down || u.kind != OutKind::Up || &d.name != n || &u.name != n {
+                                    ok = false;
+                                }
+                            }
+                        }
+                        let earliest_allowed = match (&sc.kind, fail_tick) {
+                            (_, Some(t)) => t + 1,
+                            (Kind::Timeout { .. }, None) => sc.presses.last().map(|p| p.0 + 2).unwrap_or(0),
+                            _ => 0,
+                        };
+                        let early = stream.iter().any(|o| o.kind == OutKind::Down && o.at < earliest_allowed);
+                        if early {
+                            v.push((early_sig.clone(), "hidden-delay-type pressed a typed key while the sequence was still in progress".to_string(), json!({"no_press_before_tick": earliest_allowed})));
+                        } else if !ok {
+                            v.push(("C12:delay-type-not-typed-as-taps".into(), "hidden-delay-type did not type the hidden keys as taps, in order, when the sequence failed".to_string(), json!({"taps": expect})));
+                        } else {
+                            self.out.inc("delay_type_failures_typed_as_taps");
+                        }
+                    }
+                    Mode::VisibleBackspaced => {
+                        if bsp != 0 {
+                            v.push(("C12:backspace-on-failure".into(), format!("visible-backspaced sent {bsp} backspaces although no sequence completed"), json!({"backspaces": 0})));
+                        }
+                    }
+                }
+            }
+        }
+        if primary_ok {
+            // the probe key typed afterwards must be output normally, once
+            if probe_downs.len() != 1 {
+                v.push(("C12:next-key-not-output-normally".into(), format!("the plain key typed after the sequence ended was pressed {} times at the OS ({ctx})", probe_downs.len()), json!({"probe_presses": 1})));
+            } else {
+                self.out.inc("probe_output_normally");
+            }
+            if obs.active_at_end && self.leader != Leader::AlwaysOn {
+                v.push(("C12:mode-active-at-end".into(), format!("sequence mode active after the probe key ({ctx})"), json!({"sequence_active": false})));
+            }
+        }
+        for (sig, what, exp) in v {
+            let w = self.witness(si, ord, sc, obs, exp);
+            self.out.violate(sig, what, w);
+        }
+    }
+}
+
+fn is_mod_name(n: &str) -> bool {
+    matches!(n, "LShift" | "RShift" | "LCtrl" | "RCtrl" | "LAlt" | "RAlt" | "LGui" | "RGui")
+}
+
+// ---------------------------------------------------------------- cases
+
+const N_FIXED: u64 = 24;
+
+fn parse_accepts(cfg: &str) -> Result<(), String> {
+    kanata_parser::cfg::new_from_str(cfg, Default::default()).map(|_| ()).map_err(|e| format!("{e}"))
+}
+
+fn case_tables(ctx: &Ctx, idx: u64) -> (Vec<Table>, Rng) {
+    if idx < N_FIXED {
+        let fixed = fixed_tables();
+        let t = fixed[(idx as usize) % fixed.len()].clone();
+        // fixed block: identical for every seed
+        (vec![t], Rng::for_case(0x5eed, "C12", "fixed", idx))
+    } else {
+        let mut rng = Rng::for_case(ctx.seed, "C12", "case", idx);
+        let n = 12;
+        let big = ctx.tier == crate::core::Tier::Thorough;
+        let ts = (0..n).map(|_| gen_table(&mut rng, big)).collect();
+        (ts, rng)
+    }
+}
 
 impl Check for C12Check {
     fn id(&self) -> &'static str {
         "C12"
     }
-    fn n_cases(&self, _ctx: &Ctx) -> u64 {
-        0
+    fn n_cases(&self, ctx: &Ctx) -> u64 {
+        N_FIXED + ctx.tier.sel(3_000, 60_000)
     }
-    fn run_case(&self, _ctx: &Ctx, _idx: u64) -> CaseOut {
-        CaseOut::new()
+    fn describe(&self, ctx: &Ctx, idx: u64) -> Value {
+        let (ts, _) = case_tables(ctx, idx);
+        json!(ts.iter().map(|t| t.text()).collect::<Vec<_>>())
+    }
+    fn run_case(&self, ctx: &Ctx, idx: u64) -> CaseOut {
+        let mut out = CaseOut::new();
+        let (tables, mut rng) = case_tables(ctx, idx);
+        let mut runtime_table: Option<Table> = None;
+        // ---- (a) parser half on every table
+        for t in &tables {
+            let cfg = config_text(t, Mode::HiddenSuppressed, Leader::Sldr, 20);
+            out.inc("tables");
+            let conflicts = t.conflicts();
+            out.max("orderings_per_table", t.seqs.iter().map(|s| n_orderings(&s.els)).sum::<u64>());
+            match parse_accepts(&cfg) {
+                Ok(()) => {
+                    out.inc("tables_accepted");
+                    if conflicts.is_empty() {
+                        out.inc("accepted_prefix_free");
+                    }
+                    for c in &conflicts {
+                        out.inc("accepted_with_conflict");
+                        let sig = format!("C12:accepted-not-prefix-free:{}", c.class);
+                        out.violate(
+                            sig,
+                            format!("accepted defseq table in which {} is a prefix of an ordering of {} as typed ({})", t.seqs[c.x].text(), t.seqs[c.y].text(), c.class),
+                            json!({"config": cfg, "history": "(parser only)", "observed": "accepted", "expected": "rejected, or no ordering of one sequence is a prefix of an ordering of another", "prefix_sequence": t.seqs[c.x].text(), "longer_sequence": t.seqs[c.y].text(), "class": c.class}),
+                        );
+                    }
+                    out.tag(format!("acc:{}", t.shape()));
+                    if runtime_table.is_none() {
+                        runtime_table = Some(t.clone());
+                    }
+                }
+                Err(e) => {
+                    out.inc("tables_rejected");
+                    if conflicts.is_empty() {
+                        // not judged (only accepted => prefix-free is)
+                        out.inc("rejected_without_model_conflict");
+                        if ctx.verbose {
+                            eprintln!("rejected without model conflict: {}\n{e}", t.text());
+                        }
+                    } else {
+                        out.inc("rejected_with_conflict");
+                    }
+                    out.tag(format!("rej:{}", t.shape()));
+                }
+            }
+        }
+        // ---- (b) runtime half on the first accepted table
+        let Some(table) = runtime_table else { return out };
+        out.inc("tables_typed");
+        let fixed = idx < N_FIXED;
+        let combos: Vec<(Mode, Leader)> = if fixed {
+            COMBOS.to_vec()
+        } else {
+            let a = rng.usize(COMBOS.len());
+            let b = (a + 1 + rng.usize(COMBOS.len() - 1)) % COMBOS.len();
+            vec![COMBOS[a], COMBOS[b]]
+        };
+        let ord_cap = ctx.tier.sel(8, 24);
+        for (mode, leader) in combos {
+            let timeout = *rng.pick(&[12u64, 25]);
+            let cfg = config_text(&table, mode, leader, timeout);
+            if ctx.verbose {
+                eprintln!("--- {} / {} / T={timeout}\n{cfg}", mode.name(), leader.name());
+            }
+            out.tag(format!("typed:{}:{}:{}", mode.name(), leader.name(), table.shape()));
+            for si in 0..table.seqs.len() {
+                let ords = orderings(&table.seqs[si].els, ord_cap, &mut rng);
+                for (oi, ord) in ords.iter().enumerate() {
+                    // orderings that have another sequence as a prefix are ambiguous by oracle (a)
+                    // (reported there); their run-time outcome is not determined by the statement
+                    if table.ordering_has_prefix_conflict(si, ord) {
+                        out.inc("orderings_skipped_ambiguous");
+                        continue;
+                    }
+                    out.inc("orderings_typed");
+                    let shadow = table.shadowed_by(si, ord);
+                    if !shadow.is_empty() {
+                        out.inc("orderings_in_known_shadow_structure");
+                    }
+                    let n_presses = user_steps(ord, false).iter().filter(|s| s.0).count();
+                    let has_inner_ov = ord.iter().take(ord.len().saturating_sub(1)).any(|e| matches!(e, El::Ov(_)));
+                    let mut scs: Vec<Scenario> = vec![];
+                    scs.push(build(ord, Kind::Complete, leader, timeout, false, &mut rng));
+                    // holding an overlap group through the next key makes that key part of the overlap as
+                    // far as any observer can tell; only typed where no other sequence begins like this one
+                    if has_inner_ov && user_steps(ord, true) != user_steps(ord, false) && !table.shares_first_press(si, ord) {
+                        scs.push(build(ord, Kind::Complete, leader, timeout, true, &mut rng));
+                    }
+                    if oi < 2 {
+                        let min_cut = if leader == Leader::AlwaysOn { 1 } else { 0 };
+                        for cut in min_cut..n_presses {
+                            scs.push(build(ord, Kind::PrefixForeign { cut }, leader, timeout, false, &mut rng));
+                        }
+                        // one boundary position per ordering, all three gaps
+                        let max_cut = n_presses; // gap before press index `cut`; cut == 0 is leader -> first key
+                        let cut = if leader == Leader::AlwaysOn { 1 + rng.usize(max_cut.max(2) - 1) } else { rng.usize(max_cut) };
+                        if cut < n_presses {
+                            for gap in [timeout - 1, timeout, timeout + 1] {
+                                scs.push(build(ord, Kind::Timeout { cut, gap }, leader, timeout, false, &mut rng));
+                            }
+                        }
+                    }
+                    for sc in &scs {
+                        out.inc("scenarios");
+                        match run(&cfg, sc) {
+                            Ok(obs) => {
+                                if ctx.verbose {
+                                    eprintln!("{} | {:?} | {}\n   -> {:?}", seq_text(ord), sc.kind, render_hist(&sc.hist), obs.trace.iter().map(|o| o.short()).collect::<Vec<_>>());
+                                }
+                                let hold = sc.hold_through;
+                                let mut j = Judge { out: &mut out, table: &table, cfg: &cfg, mode, leader, timeout };
+                                // the structural class only explains failures of the canonical typing
+                                j.judge(si, ord, sc, &obs, if hold { &[] } else { &shadow });
+                            }
+                            Err(e) => {
+                                out.inconclusive = Some(format!("config accepted by the parser but not by Kanata::new_from_str: {}", e.lines().next().unwrap_or("")));
+                            }
+                        }
+                    }
+                }
+            }
+        }
+        if idx % 300 == 7 || idx == 0 {
+            out.sample = Some(json!({"idx": idx, "table": table.text(), "orderings": table.seqs.iter().map(|s| n_orderings(&s.els)).collect::<Vec<_>>()}));
+        }
+        out
     }
     fn rule(&self) -> String {
-        "not implemented".into()
+        "case = 12 generated defseq tables (2-4 sequences of 1-4 elements over keys a-f: plain keys, S-/C-/A- chorded keys and groups, O-(..) groups of 2-6 keys; about a third deliberately derived from another sequence of the table as prefix / extension / sub- or super-group) judged by the parser-half oracle; the first accepted table is then typed under 2 of the 8 (input mode x leader) combinations (all 8 for the 24 fixed tables that are the same for every seed: the guide's examples, the repository's own overlap table, the known-finding witnesses): every sequence in every permitted ordering (capped at 8 quick / 24 thorough per sequence), with overlap groups released before the next key and held through it; every proper press-prefix followed by a key that occurs in no sequence; one inter-press position per ordering stretched to T-1 / T / T+1. Non-trivial = table reached the parser; distinct = (accept/reject, table shape) and (mode, leader, table shape) typed.".into()
     }
     fn assumptions(&self) -> Vec<String> {
-        vec![]
+        vec![
+            "canonical typing: a plain key is tapped, S-k holds the modifier around a tap of k, S-(a b) holds it around taps of a and b, O-(..) keys are all pressed before any is released; modifiers used are the left ones; bare modifier keys are not generated as sequence members".into(),
+            "prefix relation of oracle (a) follows the documented matching: a plain sequence matches its presses in order regardless of releases, an O-(..) group only matches presses that overlap; two sequences that complete on the same press (e.g. (a b) and (O-(a b))) are not a conflict (the repository's own tests define the overlap variant to win)".into(),
+            "tables with chorded members (S-a, S-(a b), ...) are typed with sequence-backtrack-modcancel no: with the default, a key typed under a held modifier may also match a sequence listing it without the modifier, which the guide does not specify precisely enough to model; tables of plain keys and O-(..) groups run with the default".into(),
+            "orderings for which oracle (a) reports a prefix conflict are not typed (their outcome is ambiguous by that finding)".into(),
+            "sequence-always-on is judged only with hidden-delay-type and visible-backspaced: with hidden-suppressed every key that is not part of a sequence, including the witness keys, is swallowed by design".into(),
+            "whether sequence mode has ended is read from the OS stream where it shows and from the public sequence_state.is_active() between ticks otherwise (visible-backspaced shows keys either way)".into(),
+            "timeout boundary per DESIGN appendix A: a press arriving < T ticks after the previous press (or the leader) continues, at >= T the mode has ended".into(),
+        ]
+    }
+    fn floors(&self, _ctx: &Ctx) -> Vec<(&'static str, u64)> {
+        vec![
+            ("tables_accepted", 1000),
+            ("tables_rejected", 300),
+            ("accepted_prefix_free", 500),
+            ("rejected_with_conflict", 200),
+            ("completions_exactly_once", 3000),
+            ("failures_fired_nothing", 3000),
+            ("hidden_completions_without_press", 500),
+            ("delay_type_failures_typed_as_taps", 300),
+            ("visible_completions_backspaced", 300),
+            ("boundary_T_minus_1", 200),
+            ("boundary_T", 200),
+            ("boundary_T_plus_1", 200),
+            ("probe_output_normally", 5000),
+        ]
     }
 }
